@@ -64,6 +64,8 @@ type loopInfo struct {
 }
 
 type fnTrans struct {
+	warns    []string
+	hintSeen map[string]bool
 	v      *verifier
 	fn     *ssa.Function
 	key    string
@@ -108,6 +110,7 @@ type fnTrans struct {
 	retOrd   map[*ssa.Return]int
 }
 
+// (hintSeen: hint sites of the contract that matched a call site; an unmatched site is a contract error)
 type modTarget struct {
 	heap  string
 	obj   string // object id term (entry state)
@@ -642,6 +645,13 @@ func (tr *fnTrans) run() {
 	order := tr.topoOrder()
 	for _, b := range order {
 		tr.block(b)
+	}
+	if !tr.dry {
+		for site := range c.Hints {
+			if !tr.hintSeen[site] {
+				tr.errorf("contract-orphaned: %s: hint site %q matches no call in the function", tr.key, site)
+			}
+		}
 	}
 }
 
